@@ -408,6 +408,17 @@ func (env *LEnv) load(ctx context.Context, exprs []*LVal) *LVal {
 		env.Runtime.Package = currPkg
 	}()
 
+	// Evaluating a form moves the environment's current location to that
+	// form.  Put it back when the load is done, as Eval does: the load-*
+	// builtins evaluate the loaded forms in the ROOT environment, and leaving
+	// its location at the last form of the loaded file made a function called
+	// by a builtin running there afterwards (map, funcall, apply) push its
+	// frame with that stale position -- so a later relative load-file resolved
+	// against the directory of the file loaded LAST, and host-level errors
+	// were blamed on a form of a finished load.
+	prevLoc := env.loc
+	defer func() { env.loc = prevLoc }()
+
 	ret := Nil()
 	for _, expr := range exprs {
 		ret = env.eval(ctx, expr)
